@@ -3,6 +3,7 @@ From Coq Require Import String List Arith Bool ZArith NArith.
 From SV Require Import gen.Gen_C04 c04.Model_C04 c04.Proofs_C04 c19.Properties_C19.
 Import ListNotations.
 
+Check (host_root_drop_frees : root_token_drop_frees = true).
 Check (mark_queue_is_cleared : mark_queue_cleared = true).
 Check (constants_ok : 20 < init_slots /\ 20 < extend_chunk /\ 0 < reset_limit /\ full_pct = 95).
 Check (sweep_complete : forall h r h' nb nv,
@@ -25,6 +26,7 @@ Check (bounded_growth : forall init chunk limit L ops len gc,
 Check (weak_box_clears : forall h r h' nb nv a,
   mark marker_par (reset_marks h) r = Ok (h', nb, nv) ->
   ~ reach h (all_roots r) (HB a) -> weak_value h' a = None).
+Print Assumptions host_root_drop_frees.
 Print Assumptions mark_queue_is_cleared.
 Print Assumptions constants_ok.
 Print Assumptions sweep_complete.
